@@ -129,30 +129,13 @@ def poll_rules(prog, rep, tag):
 
 
 def retry_count(prog, rep, tag):
+    """The mapping is read off by interpreting the method's MIR for each variant of RetryBehaviour (payload = the
+    symbol n), so a `match`, an `if let` over a helper returning Option, or named constants all give the same table."""
     P = "C06.retry_count"
     b = prog.body("RetryBehaviour::retry_count")
-    ok = False
-    d = {}
-    for cd in q.conds(b):
-        if cd.kind != "discr":
-            continue
-        vt = cd.variant_targets(prog)
-        pr = Prov(b)
-        for var in ("None", "Count", "Forever"):
-            t = vt.get(var)
-            if t is None:
-                continue
-            dom = q.edge_dominated(b, cd.bb, t)
-            vals = []
-            for (bi, si, kind, payload) in b.defs().get(0, []):
-                if bi in dom and kind == "assign":
-                    vals.append(roots_str(pr._of_rvalue(payload["rv"])))
-            d[var] = vals
-    okn = any("const:0" in v for v in d.get("None", [[]])[0:1] or [[]])
-    okf = any(any(x.startswith("const:") and x.endswith("18446744073709551615") for x in v) for v in d.get("Forever", []))
-    okc = any(any(x.startswith("field:RetryBehaviour:0") or "Count" in x for x in v) for v in d.get("Count", []))
-    ok = okn and okf and okc
-    rep.ob(P, "mapping" + tag, ok, "retry_count maps None->0, Count(n)->n, Forever->usize::MAX; observed %s" % d, loc=b.span, how="dataflow")
+    tb = q.enum_table(b, prog, "RetryBehaviour")
+    want = {"None": 0, "Count": "n", "Forever": 18446744073709551615}
+    rep.ob(P, "mapping" + tag, tb == want, "retry_count maps None->0, Count(n)->n, Forever->usize::MAX; evaluated %s" % (tb if tb is not None else "a body outside the interpretable fragment"), loc=b.span, how="table")
 
 
 def late_replies(prog, rep, tag):
